@@ -416,7 +416,8 @@ Definition call_first13 (now : N) (d d' : dealer) (cid k : callid) (opts det : d
   cget (d_invs d) k = None /\ cget (d_bycall d) cid = None /\
   exists inv', d_invs d' = cset (d_invs d) k inv' /\ inv_call inv' = cid /\ inv_canceled inv' = false /\
     inv_opts inv' = opts /\
-    ((inv_timer inv' = None /\ d_timers d' = d_timers d) \/
+    ((inv_timer inv' = None /\ d_timers d' = d_timers d /\
+      ((opt_int64 opts "timeout" <= 0)%Z \/ dget det "timeout" <> None)) \/
      (exists t, inv_timer inv' = Some t /\ nget (d_timers d) t = None /\
                 d_timers d' = nset (d_timers d) t (now + Z.to_N (opt_int64 opts "timeout"), cid) /\
                 (0 < opt_int64 opts "timeout")%Z /\ dget det "timeout" = None)).
@@ -503,5 +504,9 @@ Proof.
       split; [lia|].
       destruct (call_details_spec cfg caller callee r opts proc) as (_ & _ & _ & D4 & _). rewrite D4.
       apply negb_true_iff in Hnf. rewrite Hnf, andb_false_r. reflexivity.
-    + left. split; reflexivity.
+    + left. split; [reflexivity|]. split; [reflexivity|].
+      destruct (call_details_spec cfg caller callee r opts proc) as (_ & _ & _ & D4 & _).
+      unfold local_timer in Hlt. destruct (Z.ltb_spec 0 (opt_int64 opts "timeout")) as [Hpos|Hnp]; [|left; lia].
+      right. cbn [andb] in Hlt. apply negb_false_iff in Hlt. rewrite D4, Hlt.
+      destruct (Z.ltb_spec 0 (opt_int64 opts "timeout")); [cbn [andb]; discriminate|lia].
 Qed.
